@@ -372,6 +372,89 @@ theorem origin_row (rows : List R) : ∀ b ∈ run kindOf rows, BlockOK kindOf r
   have := go_ok kindOf [] rows initSt (inv_init kindOf)
   simpa [run] using this
 
+/-! ### the origin row of a BLANK block is the row that ended the previous block -/
+
+/-- a row that ends a block without starting a table / directive / template row: blank first cell, or a
+    `key:` row below the top -/
+def EndsBlock (r : R) : Prop := (kindOf r).isBlank = true ∨ kindOf r = .mta
+
+def BlankInv (pre : List R) (s : St R) : Prop :=
+  s.state = .blank → ∃ r, pre[s.first]? = some r ∧ EndsBlock kindOf r
+
+theorem getElem?_append_self {α} (pre : List α) (r : α) : (pre ++ [r])[pre.length]? = some r := by
+  simp
+
+theorem blankInv_step (pre : List R) (s : St R) (r : R) (h : BlankInv kindOf pre s) (_hle : s.first ≤ pre.length) :
+    BlankInv kindOf (pre ++ [r]) (step kindOf s pre.length r).1 := by
+  have hkeep : ∀ x, pre[s.first]? = some x → (pre ++ [r])[s.first]? = some x := by
+    intro x hx
+    have : s.first < pre.length := (List.getElem?_eq_some_iff.1 hx).1
+    rw [List.getElem?_append_left this]; exact hx
+  unfold step switch
+  cases hk : kindOf r with
+  | blankRow keep =>
+    by_cases hb : s.state = .blank
+    · simp only [hb, if_true]
+      intro _
+      obtain ⟨x, hx, he⟩ := h hb
+      exact ⟨x, hkeep x hx, he⟩
+    · simp only [hb, if_false]
+      intro _
+      exact ⟨r, getElem?_append_self pre r, Or.inl (by simp [hk, Kind.isBlank])⟩
+  | mta =>
+    by_cases hm : s.state = .metadata
+    · simp only [hm, if_true]
+      intro hb; simp at hb
+    · simp only [hm, if_false]
+      intro _
+      exact ⟨r, getElem?_append_self pre r, Or.inr hk⟩
+  | plain =>
+    simp only []
+    intro hb
+    obtain ⟨x, hx, he⟩ := h hb
+    exact ⟨x, hkeep x hx, he⟩
+  | tbl => intro hb; simp at hb
+  | dir => intro hb; simp at hb
+  | tpl => intro hb; simp at hb
+
+theorem go_blank_origin (pre rs : List R) (s : St R) (h : BlankInv kindOf pre s) (hi : Inv kindOf pre s) :
+    ∀ b ∈ go kindOf pre.length s rs, b.ty = .blank → ∃ r, (pre ++ rs)[b.first]? = some r ∧ EndsBlock kindOf r := by
+  induction rs generalizing pre s with
+  | nil =>
+    intro b hb hty
+    simp only [go] at hb
+    unfold emit at hb
+    split at hb
+    · simp at hb
+    · simp only [List.mem_singleton] at hb
+      subst hb
+      simpa using h hty
+  | cons r rs ih =>
+    intro b hb hty
+    simp only [go, List.mem_append] at hb
+    rcases hb with hb | hb
+    · rcases step_emits kindOf s pre.length r with e | e
+      · simp [e] at hb
+      · rw [e] at hb
+        unfold emit at hb
+        split at hb
+        · simp at hb
+        · simp only [List.mem_singleton] at hb
+          subst hb
+          obtain ⟨x, hx, he⟩ := h hty
+          have : s.first < pre.length := (List.getElem?_eq_some_iff.1 hx).1
+          exact ⟨x, by rw [List.getElem?_append_left this]; exact hx, he⟩
+    · have := ih (pre ++ [r]) _ (blankInv_step kindOf pre s r h hi.le) (inv_step kindOf pre s r hi) b
+        (by simpa using hb) hty
+      simpa using this
+
+/-- **BLANK blocks**: the origin row of a BLANK block is the row that ended the previous block — a row with a
+    blank first cell, or a `key:` row below the top (which is then also the block's first row) -/
+theorem blank_origin_row (rows : List R) :
+    ∀ b ∈ run kindOf rows, b.ty = .blank → ∃ r, rows[b.first]? = some r ∧ EndsBlock kindOf r := by
+  have := go_blank_origin kindOf [] rows initSt (by intro h; simp [initSt] at h) (inv_init kindOf)
+  simpa [run] using this
+
 /-! ### blocks come out in input order: origin rows strictly increase -/
 
 theorem step_first (s : St R) (i : Nat) (r : R) :
